@@ -507,6 +507,7 @@ def run (caseToks impl : List String) : String :=
   match caseToks with
   | ["h2ga", evs] => h2ga evs impl
   | ["h1d", evs] => C11D.h1d evs impl
+  | ["h2gw", evs] => C11D.h2gw evs impl
   | ["th", a, b] => th a b impl
   | ["tr", d, t, r] => tr d t r impl
   | ["tw", i, d, r] => tw i d r impl
